@@ -58,14 +58,8 @@ def main(out):
 
     dga = func_named(core, "dask_groupby_agg")
     params = [a.arg for a in dga.args.args + dga.args.kwonlyargs]
-    # 1. tokenize(...) arguments
-    token_args, ntok = [], 0
-    for n in ast.walk(dga):
-        if isinstance(n, ast.Call) and call_name(n).endswith("tokenize"):
-            ntok += 1
-            token_args = sorted(set().union(*[names_in(a) for a in n.args]) & set(params))
-    # 2. parameters flowing into graph-building calls: fixpoint over local assignments
-    assigns = {}  # local var -> names it is computed from
+    # 2a. local assignments: local var -> names it is computed from
+    assigns = {}
     for n in ast.walk(dga):
         if isinstance(n, ast.Assign):
             for t in n.targets:
@@ -76,6 +70,23 @@ def main(out):
             for tn in ast.walk(n.target):
                 if isinstance(tn, ast.Name):
                     assigns.setdefault(tn.id, set()).update(names_in(n.iter))
+    # 1. tokenize(...) arguments: the parameters named in the call, directly or through a local tuple / variable
+    #    (token = tokenize(*ingredients) with ingredients = (array, by, ...) is the same key)
+    token_args, ntok = [], 0
+    for n in ast.walk(dga):
+        if isinstance(n, ast.Call) and call_name(n).endswith("tokenize"):
+            ntok += 1
+            direct = set().union(*[names_in(a) for a in n.args]) if n.args else set()
+            fr, sn = set(direct), set()
+            while fr:
+                x = fr.pop()
+                if x in sn:
+                    continue
+                sn.add(x)
+                if x not in params:          # a parameter named in the call is an ingredient itself; locals are followed
+                    fr |= assigns.get(x, set()) - sn
+            token_args = sorted(sn & set(params))
+    # 2b. parameters flowing into graph-building calls: fixpoint over local assignments
     used = set()
     for n in ast.walk(dga):
         if isinstance(n, ast.Call) and (call_name(n) in GRAPH_CALLS or call_name(n).split(".")[-1] in {"blockwise", "map_blocks", "_tree_reduce", "tree_reduce", "subset_to_blocks"}):
